@@ -5,7 +5,7 @@ COUNTERS = ("verif_allocs", "verif_frees", "verif_reallocs", "verif_bytes", "ver
             "verif_canary_bad", "verif_bad_free", "verif_zero_allocs", "verif_neg_allocs",
             "verif_n_init", "verif_n_double", "verif_n_int", "verif_bad_bound",
             "verif_underrun_d", "verif_underrun_i", "verif_clock_reads", "verif_log_len", "verif_log_dropped",
-            "verif_script_d_pos", "verif_script_i_pos")
+            "verif_script_d_pos", "verif_script_i_pos", "verif_n_raw", "verif_raw_underrun", "verif_bad_int", "verif_bad_double")
 
 INIT, DOUBLE, INT = 0, 1, 2
 
@@ -22,6 +22,7 @@ class Shim:
             raise RuntimeError("the loaded _canneal (%s) was not built with the simulator shim" % self.path)
         L.verif_set_script_d.argtypes = [ctypes.POINTER(ctypes.c_double), ctypes.c_long]
         L.verif_set_script_i.argtypes = [ctypes.POINTER(ctypes.c_long), ctypes.c_long]
+        L.verif_set_raw_script.argtypes = [ctypes.POINTER(ctypes.c_uint32), ctypes.c_long, ctypes.c_int]
         L.verif_set_clock.argtypes = [ctypes.POINTER(ctypes.c_long), ctypes.c_int]
         L.verif_get_log.argtypes = [ctypes.POINTER(ctypes.c_int), ctypes.POINTER(ctypes.c_int), ctypes.POINTER(ctypes.c_double), ctypes.c_long]
         L.verif_get_log.restype = ctypes.c_long
@@ -51,6 +52,10 @@ class Shim:
 
     def passthrough(self):
         self._mode.value = 0
+
+    def raw_script(self, words, cycle=True):
+        w = [int(x) & 0xFFFFFFFF for x in (words or [])]
+        self.lib.verif_set_raw_script((ctypes.c_uint32 * len(w))(*w), len(w), 1 if cycle else 0)
 
     def log_enabled(self, on):
         self._logen.value = 1 if on else 0
